@@ -18,6 +18,9 @@ type feedExec struct {
 	deliver func(*pb.CommitEvent)
 	blocks  event.Feed
 	q       chan func()
+	// the real executor announces every executed block from a goroutine of its own (go blockFeed.Send): with
+	// unordered set the stand-in does the same, and announcements overtake each other
+	unordered bool
 }
 
 func (f *feedExec) Start() error { return nil }
@@ -32,8 +35,15 @@ func (f *feedExec) ExecuteBlock(ev *pb.CommitEvent) {
 	f.deliver(ev)
 }
 
-// announce queues the executed-event of a block: announcements leave in the order of the deliveries.
+// announce queues the executed-event of a block: announcements leave in the order of the deliveries (unless unordered).
 func (f *feedExec) announce(lag time.Duration, ev events.ExecutedEvent) {
+	if f.unordered {
+		go func() {
+			time.Sleep(lag)
+			f.blocks.Send(ev)
+		}()
+		return
+	}
 	f.q <- func() {
 		time.Sleep(lag)
 		f.blocks.Send(ev)
